@@ -166,7 +166,7 @@ func (g *Gen) genAttestations(sc *Scenario, views []*View) {
 				if ctx == nil {
 					continue
 				}
-				members := []int{int(uint64(s)+uint64(i)) % len(ctx.Committee)}
+				members := []int{int(uint64(s)+uint64(i)+uint64(g.Salt)) % len(ctx.Committee)}
 				if (uint64(s)+uint64(vi))%4 == 0 {
 					members = append(members, (members[0]+1)%len(ctx.Committee))
 				}
@@ -185,7 +185,7 @@ func (g *Gen) genAttestations(sc *Scenario, views []*View) {
 		ctx := sampleCtx
 		d := ctx.Data
 		n := len(ctx.Committee)
-		m := int(uint64(ctx.Slot)) % n
+		m := int(uint64(ctx.Slot)+uint64(g.Salt)) % n
 		k := w.KeyOf(ctx.Committee[m])
 		honest := func() *phase0.Attestation { return w.SignAtt(d, n, []int{m}, []KeyNum{k}, common.DOMAIN_BEACON_ATTESTER) }
 		v := v0
@@ -487,7 +487,7 @@ func (g *Gen) genAggregates(sc *Scenario, views []*View) {
 				if (uint64(s)+uint64(i))%3 != 0 {
 					pos = nil
 					for q := 0; q < n; q++ {
-						if (q+int(s))%3 != 0 || q == p {
+						if (q+int(s)+g.Salt)%3 != 0 || q == p {
 							pos = append(pos, q)
 						}
 					}
